@@ -831,7 +831,7 @@ static void gather_scatter_high_index(Rng& rng)
             for (size_t j = 0; j < i; ++j)
                 if (idx[j] == idx[i])
                     distinct = false;
-            src[i] = (T)(double)(40000 + 11 * i);
+            src[i] = (T)(double)(20000 + 11 * i); // representable in every memory type of these forms (int16 included)
         }
         std::string wit = std::string("\"table\":\"80 GiB PROT_NONE reservation, base in the middle, 5 accessible pages\",\"index\":") + hexarr(idx, N);
         if (sg.on)
